@@ -1,6 +1,106 @@
-import HranoModel.Model.Options
-import HranoModel.Model.Sink
-import HranoModel.Model.Chan
-/-! C17 property theorems (statements only in this file; helper lemmas live in Lemmas/) -/
+import HranoModel.Lemmas.Sink
+import HranoModel.Model.App
+/-!
+C17 — a report that cannot be written completely yields a non-zero exit.
+
+Property theorems only (helper lemmas: `Lemmas/Sink.lean`).  Every reporter writes through a
+`bufio.Writer` (or `csv.Writer`, which wraps one) and — after the fixes recorded in
+known-findings.txt — returns the result of its final `Flush`; `lint` writes straight to the sink
+and returns the first failed write.  The sink accepts `k` bytes in total and then fails every
+write (full disk, closed pipe).  The theorems hold for *every* way of cutting the report into
+`Write` calls and for every buffer size.
+
+What the model cannot exhibit: SIGPIPE delivery, `ENOSPC` from the kernel (real-binary runs only).
+-/
 namespace Hrano.C17
+open Hrano Hrano.BufW
+
+/-- **Lost output fails.**  After any sequence of writes and the final Flush, the writer reports an
+    error exactly when the sink could not take the whole report. -/
+theorem lost_output_fails (size k : Nat) (chunks : List Bytes) :
+    (runChunks size k chunks).err = true ↔ k < chunks.flatten.length := by
+  have hg := foldl_write_good k chunks [] (new size k) (new_good size k)
+  simp only [List.nil_append] at hg
+  unfold runChunks
+  rcases hg with hok | hlost
+  · rcases flush_good k _ _ hok with ⟨hok', hbuf, _⟩ | hlost'
+    · constructor
+      · intro h; rw [hok'.noerr] at h; cases h
+      · intro h
+        have hd := hok'.data
+        rw [hbuf, List.append_nil] at hd
+        have hc := hok'.cap
+        rw [hd] at hc
+        omega
+    · exact ⟨fun _ => hlost'.short, fun _ => hlost'.err⟩
+  · have hfl : flush (chunks.foldl write (new size k)) = chunks.foldl write (new size k) := by
+      simp [flush, hlost.err]
+    rw [hfl]
+    exact ⟨fun _ => hlost.short, fun _ => hlost.err⟩
+
+/-- what reaches the sink is always a prefix of the report: its first `k` bytes -/
+theorem sink_holds_prefix (size k : Nat) (chunks : List Bytes) :
+    (runChunks size k chunks).sink.got = chunks.flatten.take k := by
+  have hg := foldl_write_good k chunks [] (new size k) (new_good size k)
+  simp only [List.nil_append] at hg
+  unfold runChunks
+  rcases hg with hok | hlost
+  · rcases flush_good k _ _ hok with ⟨hok', hbuf, _⟩ | hlost'
+    · have hd := hok'.data
+      rw [hbuf, List.append_nil] at hd
+      have hc := hok'.cap
+      rw [hd] at hc ⊢
+      rw [List.take_of_length_le (by omega)]
+    · exact hlost'.got
+  · have hfl : flush (chunks.foldl write (new size k)) = chunks.foldl write (new size k) := by
+      simp [flush, hlost.err]
+    rw [hfl]
+    exact hlost.got
+
+/-- a sink that takes everything changes nothing: no error, the complete report arrives -/
+theorem complete_output_unchanged (size k : Nat) (chunks : List Bytes) (h : chunks.flatten.length ≤ k) :
+    (runChunks size k chunks).err = false ∧ (runChunks size k chunks).sink.got = chunks.flatten := by
+  refine ⟨?_, ?_⟩
+  · cases he : (runChunks size k chunks).err with
+    | false => rfl
+    | true => have := (lost_output_fails size k chunks).mp he; omega
+  · rw [sink_holds_prefix, List.take_of_length_le h]
+
+/-- unbuffered writes (`lint`): the command fails iff some write fails, i.e. iff output is lost -/
+theorem direct_writes_fail (k : Nat) (chunks : List Bytes) :
+    (directWrites k chunks).2 = true ↔ k < chunks.flatten.length := by
+  have hstick : ∀ (l : List Bytes) (s' : Sink), (l.foldl (fun (acc : Sink × Bool) p =>
+      if acc.2 then acc else ((acc.1.write p).1, (acc.1.write p).2.2)) (s', true)).2 = true := by
+    intro l
+    induction l with
+    | nil => intro s'; rfl
+    | cons x xs ihx => intro s'; simpa using ihx s'
+  suffices ∀ (chunks : List Bytes) (s : Sink),
+      ((chunks.foldl (fun (acc : Sink × Bool) p =>
+          if acc.2 then acc else ((acc.1.write p).1, (acc.1.write p).2.2)) (s, false)).2 = true ↔ s.cap < chunks.flatten.length) by
+    have h := this chunks ⟨k, []⟩
+    simpa [directWrites] using h
+  intro chunks
+  induction chunks with
+  | nil => intro s; simp
+  | cons c cs ih =>
+    intro s
+    simp only [List.foldl, Bool.false_eq_true, if_false, List.flatten_cons, List.length_append]
+    by_cases hf : c.length ≤ s.cap
+    · rw [sink_write_fits _ _ hf]
+      have := ih { cap := s.cap - c.length, got := s.got ++ c }
+      simp only at this ⊢
+      rw [this]
+      omega
+    · rw [sink_write_over _ _ hf]
+      simp only
+      rw [hstick]
+      simp; omega
+
+/-! non-vacuity: a 10-byte report in three writes through a 4-byte buffer; a sink taking 9 bytes fails,
+    one taking 10 succeeds -/
+example : (runChunks 4 9 [[1, 2, 3], [4, 5, 6, 7, 8], [9, 10]]).err = true := by decide
+example : (runChunks 4 10 [[1, 2, 3], [4, 5, 6, 7, 8], [9, 10]]).err = false := by decide
+example : (runChunks 4 9 [[1, 2, 3], [4, 5, 6, 7, 8], [9, 10]]).sink.got = [1, 2, 3, 4, 5, 6, 7, 8, 9] := by decide
+
 end Hrano.C17
